@@ -52,7 +52,7 @@ InitState(cfg) ==
 FreshConn(c) ==
     [ nick |-> <<>>, uname |-> <<>>, real |-> <<>>, pass |-> <<>>, src |-> "@" \o c,
       authed |-> FALSE, cfgreg |-> FALSE, capneg |-> FALSE, mp |-> FALSE, hasq |-> TRUE,
-      quit |-> FALSE ]
+      quit |-> FALSE, stalled |-> FALSE ]
 
 (* ---- messages ---- *)
 ClientName(S, c) ==
@@ -207,7 +207,7 @@ Authenticate(S, c) ==
     ELSE
     LET modes == S.cfg.default_modes \cup (IF ui # 0 THEN {"r"} ELSE {})
         u == [host |-> c, uname |-> k.uname[1], real |-> k.real[1], src |-> k.src,
-              modes |-> modes, away |-> <<>>, chans |-> {}, invited |-> {}]
+              modes |-> modes, away |-> <<>>, chans |-> {}, invited |-> {}, killable |-> TRUE]
         k2 == [k EXCEPT !.authed = TRUE, !.cfgreg = (ui # 0), !.hasq = FALSE]
         nu == Cardinality(DOMAIN S.users) + 1
         S1 == [S EXCEPT !.users = Upd(S.users, n, u),
@@ -784,7 +784,11 @@ HKill(S, c, victim, comment) ==
     IF "o" \notin S.users[n].modes THEN Res(S, << Num(S, c, "481", <<>>) >>)
     ELSE IF victim \notin DOMAIN S.users THEN Res(S, << Num(S, c, "401", <<victim>>) >>)
     ELSE LET vc == S.users[victim].host IN
-         Res(Teardown(S, vc), KillOut(vc, n, comment))
+         IF S.conns[vc].stalled
+         THEN (* the victim's task is blocked writing to a client that does not read: the signal stays *)
+              (* pending (a second KILL finds none to send); the session ends when the socket does    *)
+              Res(SetUser(S, victim, [S.users[victim] EXCEPT !.killable = FALSE]), <<>>)
+         ELSE Res(Teardown(S, vc), KillOut(vc, n, comment))
 
 RECURSIVE TeardownAll(_, _)
 TeardownAll(S, cs) ==
@@ -792,9 +796,10 @@ TeardownAll(S, cs) ==
 HDie(S, c, msg) ==
     LET n == NickOf(S, c) IN
     IF "o" \notin S.users[n].modes THEN Res(S, << Num(S, c, "483", <<>>) >>)
-    ELSE LET victims == {S.users[m].host : m \in DOMAIN S.users} IN
-         Res([TeardownAll(S, victims) EXCEPT !.up = FALSE],
-             Flat(MapSet(victims, LAMBDA v : KillOut(v, n, msg))))
+    ELSE LET victims == {S.users[m].host : m \in {u \in DOMAIN S.users : ~S.conns[S.users[u].host].stalled}}
+             S1 == [S EXCEPT !.users = [u \in DOMAIN S.users |-> [S.users[u] EXCEPT !.killable = FALSE]]]
+         IN Res([TeardownAll(S1, victims) EXCEPT !.up = FALSE],
+                Flat(MapSet(victims, LAMBDA v : KillOut(v, n, msg))))
 
 HStats(S, c, q, server) ==
     IF server # <<>> THEN << Num(S, c, "400", <<"STATS">>) >>
@@ -941,7 +946,7 @@ ErrOut(S, c, e) ==
 (***************************************************************************)
 (* Apply: one input line (or fault) on connection c                        *)
 (***************************************************************************)
-Faults == {"!open", "!close", "!rst", "!half"}
+Faults == {"!open", "!close", "!rst", "!half", "!stall"}
 
 Dispatch(S, c, cmd) ==
     LET v == cmd.verb
@@ -997,6 +1002,7 @@ Apply(S, c, cmd) ==
          THEN Res(S, << Eof(c) >>)         \* refused: the socket is closed at once
          ELSE Res([S EXCEPT !.conns = Upd(S.conns, c, FreshConn(c)), !.connCnt = S.connCnt + 1], <<>>)
     ELSE IF v \in {"!close", "!rst", "!half"} THEN Res(Teardown(S, c), <<>>)
+    ELSE IF v = "!stall" THEN Res(SetConn(S, c, [S.conns[c] EXCEPT !.stalled = TRUE]), <<>>)
     ELSE
     LET e == Validate(cmd) IN
     IF e # <<>> THEN Res(S, << ErrOut(S, c, e[1]) >>)
